@@ -107,8 +107,9 @@ def part_safety_net(ctx, eng):
     rp = make_replay(ctx)
     ccc = eng.find('changed_comment_content', free=True)
     eng.lenient = True
-    # helpers of the kernel (closures, nested fns) live in the same file: whatever of src/comment.rs it calls and no stub covers is inlined
-    eng.inline_only = [re.compile(r'changed_comment_content'), re.compile(r'^src/comment\.rs$'), re.compile(r'src/comment\.rs[^>]*>::(eq|ne)$'), re.compile(r'CodeCharKind as PartialEq')]
+    eng.inline_only = [re.compile(r'changed_comment_content'), re.compile(r'src/comment\.rs[^>]*>::(eq|ne)$'), re.compile(r'CodeCharKind as PartialEq')]
+    # small helpers of the kernel that live in the same file (a nested fn instead of a closure) are inlined too; anything bigger stays a call
+    eng.inline_pred = lambda e, name, callee: e.fn_file(name) == 'src/comment.rs' and len(e.get_fn(name).blocks) <= 12
     eng.ignored.append(re.compile(r'tracing|LevelFilter|DefaultCallsite|Interest|FieldSet|ValueSet|Event::|Metadata|fmt::|Arguments::'))
     eng.stub(r'^__is_enabled$', lambda e, s, a, c: z3.BoolVal(False), 'tracing debug! disabled')
     eng.stub(r'tracing::Level as PartialOrd<LevelFilter>>::le$', lambda e, s, a, c: z3.BoolVal(False), 'tracing level check: disabled')
@@ -199,6 +200,7 @@ def part_safety_net(ctx, eng):
     eng.ignored = []
     eng.lenient = False
     eng.inline_only = None
+    eng.inline_pred = None
 
 
 # ======================================================================================= 3. segmentation, one step
